@@ -339,6 +339,7 @@ RULES = [
     ("X-BUFFER", "buffering predicates (ordered or aggregate) and recursive expression predicates [shared]", lambda ctx: __import__("extra").buffering_predicates(ctx)),
     ("X-PHASES", "every clause of the query is parsed exactly once, in grammar order (a re-parsed LIMIT / ORDER BY overwrites the first) [shared]", lambda ctx: __import__("extra").parser_phases(ctx)),
     ("X-EXPRWALK", "recursive walks of an expression's value layer visit left, right and the further arguments [shared]", lambda ctx: __import__("extra2").value_walks_reach_arguments(ctx)),
+    ("C05-R1", "the keys of the top-N buffer are inserted, evicted and looked up by Criteria::cmp: it is a consistent order for every kind of key, keys without a value included [shared with C05]", lambda ctx: __import__("c05").r1(ctx)),
 ]
 
 EXPLANATION = (
